@@ -822,8 +822,10 @@ func (ts *TestScript) applyScriptUpdates() {
 			if txtar.NeedsQuote(data) {
 				data1, err := txtar.Quote(data)
 				if err != nil {
-					ts.Fatalf("cannot update script file %q: %v", f.Name, err)
-					continue
+					// We are running in a defer of run, outside runLine's
+					// catchFailNow, so Fatalf's panic would not be caught:
+					// fail the test directly.
+					ts.t.Fatal(fmt.Sprintf("cannot update script file %q: %v", f.Name, err))
 				}
 				data = data1
 			}
